@@ -5,7 +5,9 @@ import re
 
 PROP = "C08"
 LEAN_MODULE = "Ztr.Props.C08"
+LEAN_DEPS = ["Ztr.Props.C14"]
 THEOREMS = [
+    "Ztr.Discovery.C14_import_gate", "Ztr.Discovery.C14_module_name_has_package",
     "Ztr.Filter.C08_spec", "Ztr.Filter.C08_spec_guarded", "Ztr.Filter.C08_perm", "Ztr.Filter.C08_dup",
     "Ztr.Filter.C08_neg_never_selects", "Ztr.Filter.C08_pos_monotone",
     "Ztr.Filter.C08_pos_monotone_corner", "Ztr.Filter.C08_D13_witness",
@@ -24,11 +26,19 @@ ALPHABET = ["a", "b", "^a", "b$", "a|c", "", ".", "x", "!a", "!b", "!^a", "!", "
 NAMES = ["", "\n", "a", "b", "ab", "ba", "c", "abc", "x.y", "test_1 (m.T)", "test_2 (m.T)",
          "zope.testrunner.layer.UnitTests", "\n\n", " "]
 NEVER = "!(?!)"   # a negated pattern that matches nothing
+# patterns whose meaning depends on being compiled on their own: inline flags, group numbers and names,
+# verbose mode, look-around, anchors inside alternations
+FEATURES = ["(?i)A", "(?i)b", "(a)\\1", "(b)\\1", "(?P<n>b)(?P=n)", "!(?i)C", "!(b)\\1", "(?x) a b", "a(?=b)",
+            "(?s)^.$", "(?m)^b$", "!(?i)^AB$", "a|", "(?i)", "!(?P<n>a)(?P=n)"]
+FEATURE_NAMES = ["A", "B", "aa", "bb", "AB", "Ab", "C", "a b", "a\nb", "TEST_1 (m.T)"]
 
 
 def _real(patterns, name):
     from zope.testrunner.filter import build_filtering_func
-    return bool(build_filtering_func(patterns)(name))
+    try:
+        return bool(build_filtering_func(patterns)(name))
+    except Exception as e:  # noqa: BLE001 - every pattern here is valid on its own
+        return "raised %s: %s" % (type(e).__name__, e)
 
 
 def _query(patterns, name, implicit):
@@ -59,10 +69,18 @@ def cases(ctx):
         k = ctx.rng.randint(1, 7)
         ps = [ctx.rng.choice(ALPHABET) for _ in range(k)]
         yield ps, ctx.rng.choice(NAMES)
+    # regex features: every ordered pair (and, thorough, triple) of feature patterns and plain ones
+    mixed = FEATURES + ["a", "b", "!a", "C", "!B"]
+    for k in ((1, 2) if ctx.quick() else (1, 2, 3)):
+        for ps in itertools.product(mixed, repeat=k):
+            if k == 3 and ctx.rng.random() > 0.25:
+                continue
+            for n in FEATURE_NAMES:
+                yield list(ps), n
 
 
 def run(ctx):
-    implicit = {n: _real([NEVER], n) for n in NAMES}
+    implicit = {n: _real([NEVER], n) for n in NAMES + FEATURE_NAMES}
     todo = list(cases(ctx))
     ctx.exhaustive = False
     queries = [_query(ps, n, implicit[n]) for ps, n in todo]
@@ -75,6 +93,8 @@ def run(ctx):
         ctx.bump("accepted" if real else "rejected")
         if not any(not p.startswith("!") for p in ps) and ps:
             ctx.bump("only-negated")
+        if any(p in FEATURES for p in ps):
+            ctx.bump("regex-features")
         case = {"patterns": ps, "name": n, "real": real, "model": ans}
         if "error" in ans:
             ctx.drift("filter", "driver error %s" % ans["error"], case)
@@ -97,6 +117,10 @@ def run(ctx):
                 ctx.violation("duplicate matters: %r on %r" % (ps, n), {"patterns": ps, "name": n},
                               signature="dup")
     cli_defaults(ctx)
+    # the uses of the predicate: --module patterns see the imported dotted name (package included) of every
+    # discovered file, and only accepted modules are imported (Model/Discovery.importedModules, C14_import_gate)
+    from harness import corr_discovery
+    corr_discovery.run(ctx, n=40 if ctx.quick() else 400, module_gate_only=True)
 
 
 def cli_defaults(ctx):
